@@ -46,6 +46,9 @@ struct V : ArenaVectorBase {
 int main(int argc, char** argv) {
   replay_load(argc, argv);
   Arena arena(4096);
+  // recycled blocks are not zero: put three blocks of every slot class, filled with 0xA5, on the arena's free lists first
+  { void* blk[24]; size_t sz[24]; for (int i = 0; i < 24; i++) { sz[i] = size_t(16) << (i % 8); blk[i] = arena.alloc_reusable<void>(sz[i]); if (blk[i]) memset(blk[i], 0xA5, sz[i]); }
+    for (int i = 0; i < 24; i++) if (blk[i]) arena.free_reusable(blk[i], sz[i]); }   // three per class
   V v;
   uint32_t isz = (uint32_t)IN(0, "item_size.n");
   uint64_t n = IN(1, "n"), size0 = IN(0, "g_vsize0"), cap0 = IN(0, "g_vcap0");
